@@ -172,10 +172,14 @@ func ruleVMUnwind(c *Ctx) []Obligation {
 		}
 		// handler installed: the record variable
 		var rec types.Object
-		for _, e := range p.ev[j0:] {
+		for k, e := range p.ev[j0:] {
 			if e.K == evAssign && e.Rhs != nil {
-				if ix, ok := ast.Unparen(e.Rhs).(*ast.IndexExpr); ok && vmFieldOf(info, ix.X) == handlers {
-					rec = vmObjOf(info, e.Lhs)
+				if ix, ok := ast.Unparen(e.Rhs).(*ast.IndexExpr); ok {
+					// the handler stack itself or a local alias of it
+					base, _, _ := vmResolveAt(info, p.binds, p.ev, j0+k, ix.X)
+					if vmFieldOf(info, base) == handlers {
+						rec = vmObjOf(info, e.Lhs)
+					}
 				}
 			}
 		}
